@@ -8,15 +8,17 @@ for SHA-256, HMAC-SHA-256, AES-128/192/256 in NIST mode):
           reseeds, failing calls) in every context (reseed_counter 1..interval+1, last k ops)
   sizes   request sizes 0..max+1 (NIST: 2048 / 2049 bytes), each followed by further requests
   lens    instantiate with entropy / nonce / personalisation lengths incl. below-minimum, then a probe
-  reach   (thorough) every op sequence over {Generate, Generate+additional, Reseed} of length <= 11 (HMAC: 9)
-          that still runs into the reseed gate and sees the refusal
+  reach   (thorough) every op sequence over {Generate, Generate+additional, Reseed} of length <= 11 (Hash GM: 10, HMAC: 9)
+          that runs into the reseed gate: refusal, reseed at the gate, generate again - with exact bytes
   tick    GM/T 0105 time rule: the replayer really sleeps past the 6 s test-level interval (one scenario
           per mechanism and mode; time is no criterion in NIST mode)
+  long    one long scripted history with exact bytes (reseed early / at the gate / mid-interval, gate twice)
   tree    envelope only (Exact = FALSE: refusals, errors, NeedReseed, buffers - no bytes): EVERY op sequence
-          over {Generate, Generate+additional, Reseed} up to length 9 (quick) / 10 (thorough) and over the
-          same plus failing calls up to length 6; replayed on SM3, SHA-256, SHA-512 / SM4, AES-128/192/256
+          over {Generate, Generate+additional, Reseed} up to length 9 (quick) / 10 (thorough), every longer one
+          (up to 11 / 12) that runs into the gate, and every sequence over the same plus failing calls up to
+          length 6; replayed on SM3, SHA-256, SHA-512 / SM4, AES-128/192/256
   level2  envelope only: security level 2 (interval 1024) run into the gate, refused, reseeded
-  prng    reader wrapper with a scripted entropy source: fault (short / error / empty) at every call index,
+  prng    reader wrapper with a scripted entropy source: fault (short / error / empty / error after a full read) at every call index,
           Read sizes across the per-request maximum
 """
 import concurrent.futures
@@ -77,6 +79,9 @@ def alphabets(mech, gm, small):
 
 def run(ctx):
     quick = ctx.tier == "quick"
+    # VERIF_C17_SMOKE=1 with the thorough tier: the thorough job list and code paths with small depths (plumbing test of this plan
+    # on a busy machine; never set by the registered checks)
+    smoke = (not quick) and bool(os.environ.get("VERIF_C17_SMOKE"))
     sc = ctx.scratch
     base = dict(Seed=ctx.seed, Interval=8, TimeLimit=6000, TickOps=S([]), ScriptName='"none"', LeavesOnly="FALSE", Reach="FALSE")
     jobs, files = [], {"exact": [], "env": [], "tick": [], "prng": []}
@@ -89,7 +94,7 @@ def run(ctx):
         consts = dict(base, Exact="TRUE" if exact else "FALSE", Mech='"%s"' % mech, Gm="TRUE" if gm else "FALSE", Algs=q(algs or [alg]),
                       OutFile=core.tla_str(o))
         consts.update(kw)
-        jobs.append(dict(prio=prio, module="MC_C17", name="MC_C17_" + nm, view="View", workers=workers, timeout=3300, heap="3g", constants=consts,
+        jobs.append(dict(prio=prio, module="MC_C17", name="MC_C17_" + nm, view="View", workers=workers, timeout=7000, heap="3g", constants=consts,
                          invariants=("TypeOK", "CounterBound", "LenChecks", "OutLenOK"),
                          properties=("RefusalPure", "GateExact", "ReseedRestores"), constraint="CanReach"))
 
@@ -103,11 +108,13 @@ def run(ctx):
         b = blk(mech)
         heavy = mech == "hmac" or alg == "sha256"          # TLC cost per op: HMAC ~ 3x Hash; SHA-256 combos are second-line
         # transition cover: Window = number of preceding ops that are part of the context
-        if quick:
-            w = 0 if (heavy or alg in ("aes128", "aes256")) else 1
-        else:
-            w = (1 if mech == "hmac" else 2) if sm else (0 if alg == "sha256" and mech == "hmac" else 1)
-        gens, res = alphabets(mech, gm, quick or not sm)
+        # (at least 1: with 0 the state after a reseed merges with the fresh state and nothing is generated from it)
+        w = 1 if (quick or smoke or not sm or mech == "hmac") else 2
+        gens, res = alphabets(mech, gm, quick or smoke or not sm)
+        if heavy and (quick or smoke or not sm):
+            gens, res = ([G(0), G(32), G(33, 5)], [R(32), R(48, 9)]) if mech == "hmac" else ([G(0), G(32), G(33, 5), G(2049)], [R(32), R(48, 9), R(0)])
+        # a long scripted history with exact bytes (reseed early / at the gate / mid-interval, gate twice)
+        script("long", "exact", combo, "long", 20 + 9 + 3, prio=2)
         mc("cover", "exact", combo, 3 if mech != "ctr" else 2, 1, InstOps=std, GenOps=S(gens), ReseedOps=S(res), MaxOps=99, Window=w)
         # request sizes across the per-request maximum (GM maxima are one block: already in the cover alphabet)
         if not gm:
@@ -116,7 +123,7 @@ def run(ctx):
                     script("sizes", "exact", combo, "sizes2" if mech == "hmac" else "sizes", 4 if mech == "hmac" else 10, prio=3)
             else:
                 if sm:
-                    sizes = [G(0), G(b + 1, 7), G(2048), G(2049, 7)] if mech == "hmac" else \
+                    sizes = [G(0), G(b + 1, 7), G(2048), G(2049, 7)] if (mech == "hmac" or smoke) else \
                             [G(0), G(1), G(b - 1), G(b), G(b + 1), G(2047, 7), G(2048), G(2048, 7), G(2049), G(2049, 7)]
                     mc("sizes", "exact", combo, 3, 3, InstOps=std, GenOps=S(sizes), ReseedOps=S([]), MaxOps=3, Window=1)
                 script("sizescript", "exact", combo, "sizes", 10, prio=3)
@@ -128,8 +135,11 @@ def run(ctx):
         if sm or not quick or alg in ("aes192", "aes256"):
             mc("lens", "exact", combo, 2, 4, InstOps=S(insts), GenOps=S([G(b), G(b, 3)]), ReseedOps=S([R(32, 1)]), MaxOps=3, Window=1)
         if not quick and (sm or alg == "aes192"):
-            mc("reach", "exact", combo, 4, 0, InstOps=std, GenOps=S([G(b), G(b, 5)]), ReseedOps=S([R(32)]), MaxOps=10 if mech == "hmac" else 12,
-               Window=99, Reach="TRUE")
+            # 12: inst + 8 generates + refusal + reseed at the gate + generate; 11 stops at the reseed (cost: HMAC ~ 0.8 s, Hash ~ 0.2 s per op)
+            depth = 12 if (mech == "ctr" or (mech == "hash" and not gm)) else (11 if mech == "hash" else 10)
+            if smoke:
+                depth = 10 if mech == "ctr" else 9
+            mc("reach", "exact", combo, 4, 0, InstOps=std, GenOps=S([G(b), G(b, 5)]), ReseedOps=S([R(32)]), MaxOps=depth, Window=99, Reach="TRUE")
     # GM/T 0105 time rule (and its absence in NIST mode): one scripted scenario each, replayed once (passes = 1)
     for combo in ENV:
         script("tick", "tick", combo, "tick", 8)
@@ -139,15 +149,18 @@ def run(ctx):
         b = blk(mech)
         big = G(b + 1) if gm and mech != "hmac" else (G(2049) if mech != "hmac" else None)
         bad = R(31) if gm else R(0)
-        for kind, gens, res, depth in (("tree", [G(b), G(b, 5)], [R(32)], 10 if quick else 11),
+        for kind, gens, res, depth in (("tree", [G(b), G(b, 5)], [R(32)], 10 if quick else (8 if smoke else 11)),
                                        ("etree", [G(b), G(b, 5)] + ([big] if big else []), [R(32), bad], 7)):
             mc(kind, "env", combo, 2, 6, exact=False, algs=ENV_ALGS[(mech, gm)], InstOps=std, GenOps=S(gens), ReseedOps=S(res), MaxOps=depth,
                Window=99, LeavesOnly="TRUE")
+        # ... and every longer sequence (up to 12 / 13 ops) that runs into the gate: refusal, reseed at the gate, generate again
+        mc("rtree", "env", combo, 2, 6, exact=False, algs=ENV_ALGS[(mech, gm)], InstOps=std, GenOps=S([G(b), G(b, 5)]), ReseedOps=S([R(32)]),
+           MaxOps=12 if (quick or smoke or combo not in (SM[0], SM[3])) else 13, Window=99, Reach="TRUE")
     # another configured interval (security level 2 = 1024 calls): run into the gate, refusals, reseed, go on (envelope only)
     for combo in (SM[0], SM[3], SM[4]):
         script("level2", "env", combo, "level", 1024 + 5, exact=False, algs=ENV_ALGS[combo[:2]], Interval=1024)
     # reader wrapper: the environment may make any source read of any call misbehave (short / error / empty)
-    pbase = dict(Seed=ctx.seed, Interval=8, TimeLimit=6000, LeavesOnly="FALSE", FaultKinds=S([1, 2, 3]), SrcCap=4)
+    pbase = dict(Seed=ctx.seed, Interval=8, TimeLimit=6000, LeavesOnly="FALSE", FaultKinds=S([1, 2, 3, 4]), SrcCap=3)
 
     def prng(kind, combo, workers, prio, exact=True, algs=None, **kw):
         mech, gm, alg = combo
@@ -157,7 +170,7 @@ def run(ctx):
         consts = dict(pbase, Exact="TRUE" if exact else "FALSE", Mech='"%s"' % mech, Gm="TRUE" if gm else "FALSE",
                       Algs=q(algs or [alg]), OutFile=core.tla_str(o))
         consts.update(kw)
-        jobs.append(dict(prio=prio, module="MC_C17prng", name="MC_C17" + nm, view="View", workers=workers, timeout=3300, heap="3g", constants=consts,
+        jobs.append(dict(prio=prio, module="MC_C17prng", name="MC_C17" + nm, view="View", workers=workers, timeout=7000, heap="3g", constants=consts,
                          invariants=("TypeOK", "PCounterBound", "LenChecks", "ReadExact"), properties=("SourceFaultReported", "OnlySourceFaults")))
 
     for combo in SM + ([] if quick else [("ctr", False, "aes256"), ("hash", False, "sha256")]):
@@ -166,22 +179,23 @@ def run(ctx):
         if not (quick and mech == "hmac"):      # the wrapper is generic over the DRBG interface; HMAC bytes through it: thorough tier
             if gm:
                 # one Read chains many one-block requests: 9*m+5 crosses a reseed inside a single call
-                prng("f", combo, 4, 2, NewOps=S([32000, 16000] if quick else [32000, 16000, 32005]),
-                     ReadOps=S([0, m + 1, 9 * m + 5] if quick else [0, 1, m, m + 1, 9 * m + 5]), MaxOps=99, Window=1,
-                     FaultKinds=S([1, 2] if quick else [1, 2, 3]), SrcCap=3 if quick else 4)
+                prng("f", combo, 4, 2, NewOps=S([32000, 16000] if (quick or smoke) else [32000, 16000, 32005]),
+                     ReadOps=S([0, m + 1, 9 * m + 5] if (quick or smoke) else [0, 1, m, m + 1, 9 * m + 5]), MaxOps=99, Window=1,
+                     FaultKinds=S([1, 2, 4] if (quick or smoke) else [1, 2, 3, 4]), SrcCap=3)
             else:
                 # small reads: one request each, the 9th needs a reseed (fault at the constructor reads and at every reseed read)
-                prng("f", combo, 3, 2, NewOps=S([32000, 14005] if quick else [32000, 14000, 17005]), ReadOps=S([0, 33] if quick else [0, 1, 33]),
-                     MaxOps=99, Window=1, FaultKinds=S([1, 2] if quick else [1, 2, 3]), SrcCap=3 if quick else 4)
+                prng("f", combo, 3, 2, NewOps=S([32000, 14005] if (quick or smoke) else [32000, 14000, 17005]),
+                     ReadOps=S([0, 33] if (quick or smoke) else [0, 1, 33]),
+                     MaxOps=99, Window=1, FaultKinds=S([1, 2, 4] if (quick or smoke) else [1, 2, 3, 4]), SrcCap=3)
                 # Read sizes across the per-request maximum
                 if alg in ("sm3", "sm4"):
-                    big = [0, 1, m - 1, m, m + 1] + ([3 * m + 5] if (not quick or mech == "ctr") else [])
-                    prng("s", combo, 2, 3, FaultKinds=S([]), NewOps=S([32000]), ReadOps=S(big), MaxOps=2 if quick else 3, Window=1)
+                    big = [0, 1, m - 1, m, m + 1] + ([3 * m + 5] if ((not quick and not smoke) or mech == "ctr") else [])
+                    prng("s", combo, 2, 3, FaultKinds=S([]), NewOps=S([32000]), ReadOps=S(big), MaxOps=2 if (quick or smoke) else 3, Window=1)
     for combo in SM:
         mech, gm, alg = combo
         m = maxreq(mech, gm)
         # envelope only, all instantiations: every Read sequence to a fixed depth under every fault choice
-        prng("e", combo, 2, 6, exact=False, algs=ENV_ALGS[(mech, gm)], FaultKinds=S([1, 2]), NewOps=S([32000, 24000]),
+        prng("e", combo, 2, 6, exact=False, algs=ENV_ALGS[(mech, gm)], FaultKinds=S([1, 4]), NewOps=S([32000, 24000]),
              ReadOps=S([0, 1, 3 * m] if not gm else [0, 3 * m, 9 * m + 1]), MaxOps=5 if quick else 6, Window=99, LeavesOnly="TRUE")
     # definitions pinned by known answers / definitional consistency
     for kat in ("KAT_HMAC", "KAT_Drbg"):
@@ -189,7 +203,7 @@ def run(ctx):
 
     jobs.sort(key=lambda j: j.pop("prio"))           # the expensive instances first
     t0 = time.time()
-    ctx.tlc_many(jobs, parallel=7 if quick else 5)
+    ctx.tlc_many(jobs, parallel=8)
     ph = ctx.extra.setdefault("phases_s", {})
     ph["tlc"] = round(time.time() - t0)
     t0 = time.time()
@@ -222,11 +236,11 @@ def run(ctx):
     ctx.binding_guard(exact, K[0])
     ctx.binding_guard(prngf, lab(K[0], "prng"))
     # code -> spec: recorded random histories on real objects (all ten exact combinations), validated against DrbgObj
-    nrec = 24 if quick else 200
+    nrec = 24 if quick else (8 if smoke else 120)
 
     def rv(c):
         ev = ctx.record("drbg", nrec, tags=c["tags"], env=c["env"], name="drbg-" + c["label"])
-        ctx.validate("Trace_Drbg", ev, "drbg", shards=5 if quick else 8, label=c["label"], guard=(c is K[0]), timeout=3000,
+        ctx.validate("Trace_Drbg", ev, "drbg", shards=5 if quick else 8, label=c["label"], guard=(c is K[0]), timeout=7000,
                      constants=dict(Exact="TRUE", Interval=8, TimeLimit=6000))
     with concurrent.futures.ThreadPoolExecutor(max_workers=3) as ex:
         for f in [ex.submit(rv, c) for c in (K[0], K[2], K[3])]:
